@@ -14,7 +14,8 @@ RULE = ('send((generator, size)) with an instrumented generator that counts pull
         'long enough -> the wire carries exactly the extracted Coq reference segmentation of the first `size` values and nothing beyond '
         'them is pulled; generator short -> BadGeneratorError exactly once, request failed, never completed as a shorter or padded '
         'message (the bytes on the wire are a strict prefix announcing the declared size). Replayed on the extracted model.'
-        ' (blocking) blocking_send=True with send(send_timeout=0): nothing is pulled inside send(), afterwards the pulls follow the emitted bytes.')
+        ' (blocking) blocking_send=True with send(send_timeout=0): nothing is pulled inside send(), afterwards the pulls follow the emitted bytes.'
+        ' A third of the short transfers run under a rate limiter of two frames per window (frames held back, never lost; same laziness bound).')
 ASSUME = ['user generators yield ints 0..255 and do not raise']
 
 
